@@ -454,6 +454,10 @@ def _finding_of(w):
     if c == 'pickup-unsatisfied' and False:
         return None
     if c == 'raises':
+        t0 = (((w.get('history') or {}).get('types') or {}).get('0') or {}).get('t')
+        if w.get('error') == 'ValueError' and 'Unsupported input type' in str(w.get('msg')) and t0 in ('np.int64', 'arr0d_i') \
+                and op and op[0] in ('solve', 'image_solve', 'update'):
+            return 'object-thickness-numpy-int'
         if op and (op[0] == 'set_coeff' or (op[0] == 'var' and op[1] == 'asphere_coeff')) and w.get('error') == 'TypeError' \
                 and str(w.get('coef_container') or '').startswith('tuple'):
             return 'asphere-coeff-tuple'
@@ -516,6 +520,13 @@ REPLAYS = {
         ['add', 2, 'standard', -60.0, 0.0, [], 50.0, 'air', False, 0.0, 0.0, 0.0, 0.0],
         ['add', 3, 'standard', INF, 0.0, [], 0.0, 'air', False, 0.0, 0.0, 0.0, 0.0],
         ['set_coeff', -2.5e-4, 1, 0]]},
+    'object-thickness-numpy-int': {'ap': ['EPD', 10.0], 'nbuild': 5, 'types': {'0': {'t': 'np.int64'}}, 'ops': [
+        ['add', 0, 'standard', INF, 0.0, [], 200.0, 'air', False, 0.0, 0.0, 0.0, 0.0],
+        ['wavelength', 0.55, True],
+        ['add', 1, 'standard', 40.0, 0.0, [], 6.0, ['ideal', 1.5], True, 0.0, 0.0, 0.0, 0.0],
+        ['add', 2, 'standard', -60.0, 0.0, [], 50.0, 'air', False, 0.0, 0.0, 0.0, 0.0],
+        ['add', 3, 'standard', INF, 0.0, [], 0.0, 'air', False, 0.0, 0.0, 0.0, 0.0],
+        ['image_solve']]},
     'set-index-mirror-media': {'ap': ['EPD', 5.0], 'nbuild': 6, 'ops': _MIRROR + [['set_index', 1.41, 1]]},
     'solve-changes-launch': {'ap': ['imageFNO', 5.0], 'nbuild': 8, 'ops': [
         ['add', 0, 'standard', INF, 0.0, [], INF, 'air', False, 0.0, 0.0, 0.0, 0.0],
